@@ -105,7 +105,10 @@ func lemma_deps_rdeps_inverse(g *DirectedTargetGraph, n, d model.BuildNode) ([]m
 // ---- walker (C03, C04, C05) -------------------------------------------------------------------------------------
 
 // success(w, d): node d has completed successfully
+// startNode and cancelNode run with the walker's mutexes held (from Walk's start loop and from onComplete): they hand the
+// message to a goroutine and never block on the node's channel themselves
 //@ func (*Walker).startNode(w, node) ()
+//@   nonblocking
 //@   requires [deps_done] forall j int :: {w.graph.inEdges[labelOf(node)][j]} 0 <= j && j < len(w.graph.inEdges[labelOf(node)]) ==>
 //@        has(w.completions, labelOf(w.graph.inEdges[labelOf(node)][j])) && w.completions[labelOf(w.graph.inEdges[labelOf(node)][j])].IsSuccess
 //@   requires [node] isNode(node)
@@ -113,6 +116,7 @@ func lemma_deps_rdeps_inverse(g *DirectedTargetGraph, n, d model.BuildNode) ([]m
 //@   ghostset readyIssued[labelOf(node)] := true
 
 //@ func (*Walker).cancelNode(w, node) ()
+//@   nonblocking
 //@   requires [node] isNode(node)
 //@   pure
 //@   ghostset cancelIssued[labelOf(node)] := true
